@@ -85,6 +85,7 @@ def env():
             return r
 
     conn = LogConn(':memory:')
+    _env['LogConn'] = LogConn
     sigmap = {'c': events.RowCreateSignal, 'C': events.RowCreatedSignal, 'u': events.RowUpdateSignal,
               'U': events.RowUpdatedSignal, 'd': events.RowDestroySignal, 'D': events.RowDestroyedSignal}
     _env.update(conn=conn, sigmap=sigmap, events=events)
@@ -208,6 +209,21 @@ def exc_out(e):
     return n
 
 
+_made = [0]
+
+
+def renew_conn():
+    """a fresh in-memory database every few hundred cases keeps the schema (and the run time) small"""
+    e = env()
+    _made[0] += 1
+    if _made[0] % 300 == 0:
+        try:
+            e['conn'].close()
+        except Exception:
+            pass
+        e['conn'] = e['LogConn'](':memory:')
+
+
 def make_class(lazy):
     from sqlobject import SQLObject, IntCol
     e = env()
@@ -262,6 +278,7 @@ def fmt_table(rows):
 
 def run_plain(case):
     """returns list of per-op dicts: out, entries (list of str), table (list), live-before info"""
+    renew_conn()
     e = env()
     conn = e['conn']
     events = e['events']
@@ -491,6 +508,7 @@ def case_json(case):
 def run_chain(case):
     from sqlobject import IntCol
     from sqlobject.inheritance import InheritableSQLObject
+    renew_conn()
     e = env()
     conn = e['conn']
     events = e['events']
